@@ -81,7 +81,9 @@ func (r *REPL) Run(line string) error {
 	}
 	// need +"\n" because "single" expects \n terminated input
 	toCompile := r.previous + string(line)
-	if toCompile == "" {
+	// A line with nothing but white space at the primary prompt is a
+	// blank line - there is nothing to run and nothing to continue
+	if strings.TrimSpace(toCompile) == "" {
 		return nil
 	}
 	code, err := py.Compile(toCompile+"\n", r.prog, py.SingleMode, 0, true)
